@@ -87,8 +87,119 @@ func stream(seed int64, tag byte, n int) []byte {
 	return b
 }
 
+// c05.late <seed> <late 0|1>   idle timeout 500 ms.  The client sends one byte and then only reads; the backend sends a byte every 50 ms, so
+// its direction is never idle.  After 800 ms — the client's direction has timed out meanwhile — the client sends one more byte (late=1), the
+// backend then sends 2 MiB and finishes; the client is slow (pauses 1.5 s) and reads to the end.
+//
+//	-> got=<bytes the client received>/<bytes the backend sent> end=<eof|error>
+func c05Late(seed int64, late bool) string {
+	be, err := hx.NewBackend()
+	if err != nil {
+		return "sockerr"
+	}
+	defer be.Close()
+	p, err := hx.NewTCPProc(service.LoadBalancePolicy_ROUND_ROBIN, 500*time.Millisecond, 0, []*host.Host{host.New(be.Addr)})
+	if err != nil {
+		return "procerr"
+	}
+	defer hx.DropScopes("service." + p.Name() + ".")
+	defer p.Stop()
+	const head, tail = 20, 2 << 20
+	data := stream(seed, 'b', head+tail)
+	goAhead := make(chan struct{})
+	sdone := make(chan struct{})
+	go func() {
+		defer close(sdone)
+		var c net.Conn
+		select {
+		case c = <-be.Conns:
+		case <-time.After(5 * time.Second):
+			return
+		}
+		defer c.Close()
+		rdone := make(chan struct{})
+		go func() { io.Copy(io.Discard, c); close(rdone) }()
+		off := 0
+		tick := time.NewTicker(50 * time.Millisecond)
+		defer tick.Stop()
+	loop:
+		for {
+			select {
+			case <-tick.C:
+				if off < head {
+					c.Write(data[off : off+1])
+					off++
+				}
+			case <-goAhead:
+				break loop
+			}
+		}
+		if _, err := c.Write(data[off:]); err == nil {
+			c.(*net.TCPConn).CloseWrite()
+		}
+		select {
+		case <-rdone:
+		case <-time.After(5 * time.Second):
+		}
+	}()
+	conn, err := net.Dial("tcp", p.Address())
+	if err != nil {
+		return "sockerr"
+	}
+	defer conn.Close()
+	conn.Write([]byte("R"))
+	got, wrong := 0, false
+	buf := make([]byte, 4096)
+	start := time.Now()
+	passed := false
+	end := "eof"
+	conn.SetReadDeadline(time.Now().Add(15 * time.Second))
+	for {
+		if !passed && time.Since(start) > 800*time.Millisecond {
+			passed = true
+			if late {
+				conn.Write([]byte("L"))
+			}
+			time.Sleep(50 * time.Millisecond)
+			close(goAhead)
+			time.Sleep(1500 * time.Millisecond)
+		}
+		n, err := conn.Read(buf)
+		for i := 0; i < n; i++ {
+			if got+i >= len(data) || buf[i] != data[got+i] {
+				wrong = true
+			}
+		}
+		got += n
+		if err != nil {
+			if err != io.EOF {
+				end = "error"
+			}
+			break
+		}
+	}
+	if !passed {
+		close(goAhead)
+	}
+	select {
+	case <-sdone:
+	case <-time.After(6 * time.Second):
+	}
+	if wrong {
+		end += "+wrong-bytes"
+	}
+	return fmt.Sprintf("got=%d/%d end=%s", got, len(data), end)
+}
+
 func (c05) Exec(op string) string {
 	f := hx.Fields(op)
+	if len(f) == 3 && f[0] == "c05.late" {
+		seed, err := strconv.ParseInt(f[1], 10, 64)
+		if err != nil || (f[2] != "0" && f[2] != "1") {
+			return "bad-op"
+		}
+		return recoverStr(func() string { return c05Late(seed, f[2] == "1") })
+	}
 	if len(f) < 3 {
 		return "bad-op"
 	}
